@@ -29,7 +29,7 @@ from detsim.runner import Discard
 
 PROP = "C15"
 LEVEL = "fault_enumeration"
-RUNS = {"quick": 8000, "thorough": 120000}
+RUNS = {"quick": 6000, "thorough": 120000}
 BUDGET_S = {"quick": 150, "thorough": 1500}
 EXHAUSTIVE = {"quick": False, "thorough": False}
 PAIRS_PER_CHART = {"quick": 16, "thorough": 120}  # ordered pairs of faults, sampled above this
@@ -245,6 +245,57 @@ def apply_corruption(doc: dict[str, Any], c: dict[str, Any]) -> tuple[str, str, 
     return gen.render_sections(secs), label, info
 
 
+def _concurrent_queries(chart: Any, base_chart: Any, zf: int, probe_ticks: list[int], seed: int) -> str | None:
+    """Two reader threads query one chart whose last tempo is zero, under the deterministic
+    scheduler: every query at or after the zero tempo raises ValueError, every other one returns
+    what the uncorrupted chart returns."""
+    import random
+
+    from detsim import env
+    from detsim.sched import HarnessError, Scheduler
+
+    r = random.Random(seed)
+    be = chart.sync_track.bpm_events
+    bbe = base_chart.sync_track.bpm_events
+    early = [t for t in probe_ticks if 0 <= t < zf] or [0]
+    late = [zf, zf + 1, zf + 7, zf + 100000]
+    clients = [[r.choice(late) if r.random() < 0.5 else r.choice(early) for _ in range(r.randint(4, 8))]
+               for _ in range(2)]
+    schedule = r.choice([{"mode": "geometric", "seed": r.getrandbits(32), "gap": r.choice([1, 2, 3, 5])},
+                         {"mode": "writes", "seed": r.getrandbits(32), "p": 0.9, "hold": r.choice([5, 20, 60])}])
+    sched = Scheduler(schedule, 2, env.PKG_DIR, preempt_lines=not env.package_uses_locks_or_threads())
+    bad: list[str] = []
+
+    def body_for(ci: int) -> Any:
+        def body(client: Any) -> None:
+            for k, t in enumerate(clients[ci]):
+                sched.begin_op(client, k)
+                try:
+                    got: Any = us(be.timestamp_at_tick_no_optimize_return(t))
+                except HarnessError:
+                    raise
+                except ValueError:
+                    got = "ValueError"
+                except BaseException as e:  # noqa: BLE001
+                    got = "raised " + type(e).__name__
+                sched.end_op(client)
+                with sched.atomic(client):
+                    if t >= zf:
+                        if got != "ValueError" and not bad:
+                            bad.append(f"query for tick {t} (governed by the zero tempo) gave {got}")
+                    else:
+                        want = us(bbe.timestamp_at_tick_no_optimize_return(t))
+                        if got != want and not bad:
+                            bad.append(f"query for tick {t} gave {got}, uncorrupted chart {want}")
+        return body
+
+    try:
+        sched.run([body_for(0), body_for(1)])
+    except HarnessError:
+        return None
+    return bad[0] if bad else None
+
+
 def _parse(text: str, chunk: int | None) -> Any:
     from detsim import simfs, world
 
@@ -267,7 +318,8 @@ def execute(plan: dict[str, Any]) -> dict[str, Any]:
     fired: dict[str, int] = {}
     counters = {"must_raise": 0, "may_parse": 0, "base": 0, "unspecified": 0, "queries": 0,
                 "may_parse_parsed": 0, "ok": 0, "n_a": 0, "pairs": 0, "pairs_must_raise": 0, "retries": 0,
-                "healthy_then_dropped_histories": 0,
+                "healthy_then_dropped_histories": 0, "carrier_chart_histories": 0,
+                "concurrent_query_sessions": 0,
                 "short_reading_reader": 1 if plan.get("reader_chunk") else 0}
     nontrivial = []
     base_chart = None
@@ -336,6 +388,24 @@ def execute(plan: dict[str, Any]) -> dict[str, Any]:
                                   f"{bad_q[0]}({bad_q[1]}) gave {bad_q[2]!r} instead of ValueError "
                                   f"(allocator shift {j})"})
                     break
+        if (label == "must-raise" and base_text is not None
+                and (ci_ + plan.get("retry_off", 0)) % 4 == 1 and c["kind"] != "res0"):
+            # history: an ACCEPTABLE chart that carries the very lines of the corrupted sync body
+            # as stray lines in its [Events] section (skipped and reported there) is parsed first;
+            # what the process remembers about a line's text must not follow it into [SyncTrack]
+            try:
+                sep = "\r\n" if "\r\n" in text else "\n"
+                base_lines = base_text.split(sep)
+                stray = [ln for ln in text.split(sep) if ln.startswith("  ") and (" = B " in ln or " = TS " in ln)
+                         and ln not in base_lines]
+                if stray and "[Events]" in base_lines:
+                    i_ev = base_lines.index("[Events]") + 2
+                    carrier = sep.join(base_lines[:i_ev] + stray + base_lines[i_ev:])
+                    with world.shadow():
+                        _parse(carrier, None)
+                    counters["carrier_chart_histories"] += 1
+            except BaseException:  # noqa: BLE001 - the carrier is only history, never judged
+                pass
         try:
             chart = _parse(text, plan.get("reader_chunk"))
         except BaseException as e:  # noqa: BLE001
@@ -407,6 +477,15 @@ def execute(plan: dict[str, Any]) -> dict[str, Any]:
                     violations.append({"sig": f"C15/{kind}/query/{type(e).__name__}",
                                        "detail": f"query for tick {t} raised {exc_token(e)} after corruption {c}"})
                     break
+        if label == "may-parse" and "zero_from" in info and base_chart is not None and chart is not None:
+            bad = _concurrent_queries(chart, base_chart, info["zero_from"], probe_ticks,
+                                      plan["seed"] + ci_)
+            counters["concurrent_query_sessions"] += 1
+            ev.update(f"cq:{bad};".encode())
+            if bad:
+                violations.append({"sig": "C15/zero_tempo/query-must-raise/concurrent-readers",
+                                   "detail": f"tempo {info['zero_k']} (tick {info['zero_from']}) is zero; "
+                                             f"with two threads querying the chart: {bad}"})
         if label == "may-parse" and "zero_from" in info and base_chart is not None:
             zf = info["zero_from"]
             bbe = base_chart.sync_track.bpm_events
